@@ -252,6 +252,23 @@ fn run_corpus(job: &Value) {
         xs.extend(["1.2.3", "1..2", ".5.5", "1.", ".", "2pi", "1e5", "2i3", "i2", "π²", "3!!", "-2^2", "2^3!", "6/2(3)", "1 + 2\u{2003}* 3", "⌊2.5⌋⌈2.5⌉", "1<<63", "1<<64", "5%0", "1/0", "avg()", "min()", "max(1,2,)", "sgn(0)", "w(1)", "ilog(100,2)", "gcd(12,18)", "@@", "(@)", "@(2)"].iter().map(|s| s.to_string()));
         for x in xs { let _ = writeln!(w, "{}\t{}", e, x); n += 1; }
     }
+    // literals of 15 to 19 significant digits with a fraction (where a short-cut conversion and `str::parse` part ways): a feature
+    // subset may select another conversion path
+    {
+        let mut rng = Rng(0x11AE5EED);
+        for e in ["f64", "dec", "cpx", "num"] {
+            for k in 0..240usize {
+                let nd = 15 + k % 5;
+                let mut ds: String = (0..nd).map(|i| { let d = rng.below(10); char::from(b'0' + if i == 0 && d == 0 { 9 } else { d as u8 }) }).collect();
+                if k % 3 == 0 { ds = format!("{}{}", "9".repeat(nd - 3), &ds[..3]); }
+                let point = match k % 4 { 0 => 0, 1 => 1, 2 => nd / 2, _ => nd - 1 };
+                let lit = if point == 0 { format!("0.{}", ds) } else { format!("{}.{}", &ds[..point], &ds[point..]) };
+                let _ = writeln!(w, "{}\t{}", e, lit); n += 1;
+                if k % 4 == 0 { let _ = writeln!(w, "{}\t.{}*2", e, ds); n += 1; }
+                if e != "cpx" && k % 2 == 0 { let _ = writeln!(w, "{}\t{}({})", e, if k % 4 == 0 { "floor" } else { "round" }, lit); n += 1; }
+            }
+        }
+    }
     // every use of a precedence level (the levels are cfg-dependent enum ordinals): implicit products with every kind of left and
     // right factor, every suffix after the right factor, every operator to the left
     for e in ["f64", "i64", "dec", "cpx", "num"] {
